@@ -243,6 +243,9 @@ func c19JudgeStatic(issuer string, insecure bool) (constructed bool, clause stri
 func init() { Registry["C19"] = runC19 }
 
 func runC19(ctx Ctx) int {
+	if rc, ok := concDispatch("C19", ctx); ok {
+		return rc
+	}
 	run := ev.NewRun("C19")
 	run.Rule = "A: full product of issuer strings = scheme(10) x separator(5) x userinfo(4) x host(10) x port(5) x path(7) x query(8) x fragment(4) x insecure(2) against the real StaticIssuer factory (and NewProvider for every accepted string), judged by the RFC 3986 appendix-B component regex; A2: every string with <= 1 component off the canonical issuer x 6 prefixes x 9 suffixes of blanks / TAB / LF / CRLF / NBSP / EM SPACE / NUL / VT; B2: every sequence of <= 3 requests over 4 forwarding-header placements on one provider (3 issuer modes); B3: every ordered pair of 8 issuer-factory configurations (Host only, Forwarded, custom lists of 0-3 headers) alive in one process x 8 header subsets; B: full product of configured path(10, incl. percent-escapes, //-prefixed and scheme-like paths) x insecure(2) x request Host(3) x 15 Forwarded header shapes x 3 issuer modes x header placement(3) x request path(2) x X-Forwarded-Proto(2), plus 1 296 cases observed after another tenant's metadata request while the signing-key lookup fails (4 kinds), observed on IssuerFromRequest and on the entityID of the served metadata, judged with an own RFC 7239 reading"
 	run.Assume = []string{"a bare '?' or '#' with nothing after it is not counted as query / fragment", "for syntactically malformed Forwarded values either host choice is accepted; the structure (scheme and path never from the request) is always enforced"}
@@ -605,6 +608,13 @@ func runC19(ctx Ctx) int {
 	run.Sample(map[string]any{"issuer": "https://idp.example/saml", "insecure": false})
 	run.Sample(map[string]any{"issuer": "hTTps:/u:p@[::1:99999/%zz?a;b#f", "insecure": true})
 	run.Sample(dcases[len(dcases)/2])
+	{
+		cb, cs := 1, 90
+		if ev.Tier() == "thorough" {
+			cb, cs = 2, 1200
+		}
+		runConc(run, "C19", cb, cs)
+	}
 	finishCapped(run, c1 && c2 && c2b, fmt.Sprintf("A: full product (%d issuer strings x 2); B: %d derivation cases", run.Evaluations.Load()/2, len(dcases)))
 	return run.Finish()
 }
